@@ -10,6 +10,7 @@ open Expr_io
 let hex_of_bytes (l : n list) : string =
   String.concat "" (List.map (fun c -> Printf.sprintf "%02x" (small_of_n c)) l)
 let bytes_of_hex (s : string) : n list =
+  if s = "-" then [] else   (* the empty string inside a comma-separated list *)
   List.init (String.length s / 2) (fun i -> n_of_small (16 * hexval s.[2 * i] + hexval s.[2 * i + 1]))
 let string_of_bytes (l : n list) : string =
   String.concat "" (List.map (fun c -> String.make 1 (Char.chr (small_of_n c))) l)
